@@ -72,6 +72,15 @@ def case_strategy(draw):
 
 
 @st.composite
+def many_triplets_case(draw):
+    """40 columns in pairwise mode over 150-170 mini-batches: more than 2^18 (pair, batch) scores are aggregated (thorough tier only: the
+    per-batch re-aggregation makes such a run take about a minute)."""
+    return {'ncols': 40, 'm': 2, 's': 1, 'k': draw(st.integers(155, 170)), 't': 0, 'bad': [], 'seed': draw(st.integers(0, 2**32 - 1)),
+            'explode': False, 'trail': 0, 'offgrid_bad': False, 'final_newline': True, 'heuristic': 'max-value-coverage', 'header_rows': [],
+            'pairwise': True, 'annot': False, 'label_pos': draw(st.integers(0, 39)), 'order': 1}
+
+
+@st.composite
 def long_case_strategy(draw):
     """Files of 66 000 - 140 000 lines (more than any 2^16-line read block) with subsampling factors that do not divide a power of two."""
     ncols = draw(st.integers(2, 3))
@@ -408,10 +417,11 @@ def _first_diff(got, exp):
     return 'no difference'
 
 
-KINDS = ['C08/stream', 'C08/long-file', 'C08/rows', 'C08/invalid-count', 'C08/median', 'C08/checkpoint', 'C08/output', 'C08/order', 'C08/counts']
+KINDS = ['C08/stream', 'C08/long-file', 'C08/many-triplets', 'C08/rows', 'C08/invalid-count', 'C08/median', 'C08/checkpoint', 'C08/output', 'C08/order', 'C08/counts']
 ORACLES = {k: oracle for k in KINDS}
 
 
 def run(ctx):
     drive(ctx, [Clause('C08/stream', case_strategy, oracle, quick=480, thorough=24000, quick_shards=16),
-                Clause('C08/long-file', long_case_strategy, oracle, quick=16, thorough=480, quick_shards=16)])
+                Clause('C08/long-file', long_case_strategy, oracle, quick=16, thorough=480, quick_shards=16),
+                Clause('C08/many-triplets', many_triplets_case, oracle, quick=0, thorough=4, quick_shards=1, thorough_shards=4)])
